@@ -1,15 +1,16 @@
 #!/venv/bin/python
-"""Import confirmed seeded changes from /tmp/seed/<PID>/out into /verif/seeded/<PID>-<V>/ and
+"""Import confirmed seeded changes of ONE round (argument: its root, default /tmp/seed6; earlier rounds are committed and
+may have been re-derived on a repaired tree since) from <root>/<PID>/out into /verif/seeded/<PID>-<V>/ and
 record which rule of the property's check reports them (run against an overlay, /repo untouched)."""
 import json, os, re, shutil, subprocess, sys, tempfile
 
 VERIF = os.path.dirname(os.path.dirname(os.path.abspath(__file__)))
 rows = []
-for SEED, pid in sorted((root, pid) for root in ("/tmp/seed", "/tmp/seed2", "/tmp/seed3", "/tmp/seed4", "/tmp/seed5") if os.path.isdir(root) for pid in os.listdir(root)):
+for SEED, pid in sorted((root, pid) for root in (sys.argv[1:] or ["/tmp/seed6"]) if os.path.isdir(root) for pid in os.listdir(root)):
     out = os.path.join(SEED, pid, "out")
     if not os.path.isdir(out):
         continue
-    for v in ("A", "B", "C", "D", "E", "F", "G", "H", "I", "J"):
+    for v in ("A", "B", "C", "D", "E", "F", "G", "H", "I", "J", "K", "L"):
         conf = os.path.join(out, v + ".confirm.json")
         if not os.path.exists(conf):
             continue
